@@ -97,7 +97,7 @@ def fragLeaf (o : Opts) (n : BNet) : String :=
   match n.top with
   | none => "out:no-top"
   | some t =>
-    firstFail [("PinMirror", fun _ => decide n.PinMirror), ("LatchConnected", fun _ => decide (Any.LatchConnected n)),
+    firstFail [("PinMirror", fun _ => decide n.PinMirror), ("LatchSep", fun _ => decide (Any.LatchSep n t)),
                ("BBWide", fun _ => decide (Any.BBWide n t))]
 
 /-- `eblif_roundtrip_subckt_total` -/
